@@ -46,6 +46,39 @@ SCHEMA = '''<xsd:import namespace="http://schemas.xmlsoap.org/soap/encoding/"/>
 <xsd:attribute ref="soapenc:arrayType" wsdl:arrayType="xsd:int[][]"/></xsd:restriction></xsd:complexContent></xsd:complexType>'''
 
 
+def childless_independent_elements(ctx):
+    """An independent element that holds a simple value (no children) and binds, for itself, the prefix its own
+    xsi:type uses - a prefix the envelope binds to something else: the value is typed as the inlined element is."""
+    schema = ('<xsd:simpleType name="Code"><xsd:restriction base="xsd:int"/></xsd:simpleType><xsd:complexType name="Holder">'
+              '<xsd:sequence><xsd:element name="v" type="xsd:anyType"/><xsd:element name="w" type="xsd:anyType"/>'
+              '</xsd:sequence></xsd:complexType>')
+    w = wsdlkit.wsdl_doc(schema, style="rpc", use="encoded", in_parts=[("a", "type", "xsd:string")],
+                         out_parts=[("return", "type", "x:Holder")])
+    c = wsdlkit.client(w)
+    for outer in ("urn:elsewhere", wsdlkit.TNS, None):
+        for inline in (True, False):
+            kdecl = "" if outer is None else ' xmlns:k="%s"' % outer
+            v_ = ' xmlns:k="%s" xsi:type="k:Code">42' % wsdlkit.TNS
+            w_ = ' xmlns:k="%s" xsi:type="k:int">7' % xmlread.XSD
+            if inline:
+                body = '<return><v%s</v><w%s</w></return></m:fResponse>' % (v_, w_)
+            else:
+                body = ('<return><v href="#id1"/><w href="#id2"/></return></m:fResponse><multiRef id="id1" soapenc:root="0"%s'
+                        '</multiRef><multiRef id="id2" soapenc:root="0"%s</multiRef>' % (v_, w_))
+            doc = ('<e:Envelope xmlns:e="%s" xmlns:xsi="%s" xmlns:xsd="%s" xmlns:soapenc="%s"%s><e:Body><m:fResponse '
+                   'xmlns:m="%s">%s</e:Body></e:Envelope>' % (xmlread.ENV11, xmlread.XSI, xmlread.XSD, xmlread.ENC, kdecl,
+                                                               wsdlkit.TNS, body)).encode()
+            meta = {"stream": "childless-independent-elements", "envelope_binds_k_to": outer, "inline": inline, "doc": doc.decode()}
+            ctx.case(common.canon({k_: v for k_, v in meta.items() if k_ != "doc"}), True)
+            try:
+                r = c.service.f("x", __inject={"reply": doc})
+                got = [[type(r.v).__name__, str(r.v)], [type(r.w).__name__, str(r.w)]]
+            except Exception as e:
+                got = "%s: %s" % (type(e).__name__, e)
+            if got != [["int", "42"], ["int", "7"]]:
+                ctx.fail("out-lined reply decodes differently from the inlined one", meta, got, [["int", "42"], ["int", "7"]])
+
+
 def make_wsdl(ret_type):
     return wsdlkit.wsdl_doc(SCHEMA, style="rpc", use="encoded", in_parts=[("a", "type", "xsd:string")],
                             out_parts=[("return", "type", ret_type)])
@@ -301,6 +334,7 @@ def run(ctx):
             ctx.compare("MultiRef.process", meta, real, strip_ids(ans))
     jagged_and_dangling(ctx)
     digit_ended_type_names(ctx)
+    childless_independent_elements(ctx)
     lean_writer_roundtrip(ctx)
     # a reference that dangles in this reply stays dangling, whatever earlier replies on the same client defined
     head = ('<e:Envelope xmlns:e="%s" xmlns:xsi="%s" xmlns:xsd="%s" xmlns:soapenc="%s" xmlns:x="%s"><e:Body>'
